@@ -121,7 +121,8 @@ struct Judge<T, false> {
         ld big = std::max(std::max(a, b), std::max(std::fabs(r), std::fabs((ld)x)));
         if (big > (ld)std::numeric_limits<T>::max() / 1024) { g_st.skipped++; return; }
         using C = std::common_type_t<R, T>;
-        ld tol = 6 * ulp_of<typename std::conditional<std::is_floating_point<C>::value, C, T>::type>(big) + 2 * ulp_of<T>(big);
+        // computed in the common type of the two reps (error relative to the largest term there), then cast to T once
+        ld tol = 6 * ulp_of<typename std::conditional<std::is_floating_point<C>::value, C, T>::type>(big) + ulp_of<T>(r);
         g_st.judged++;
         if (!(std::fabs((ld)got - r) <= tol)) mismatch(op, x, x, got, (T)r);
     }
@@ -141,6 +142,28 @@ struct ImplicitForms<SrcU, R, DstU, true> {
         g_st.evals += 2;
         Judge<R>::run("in(unit)", x, a, m);
         Judge<R>::run("as(unit)", x, b, m);
+    }
+};
+
+// The implicit converting constructor / assignment into a floating rep (always admitted by the policy) must give what as<T>(unit) gives.
+template <typename SrcU, typename R, typename DstU, typename T, bool F = std::is_floating_point<T>::value>
+struct ImplicitCtor {
+    static void run(R, const Affine &) {}
+};
+template <typename SrcU, typename R, typename DstU, typename T>
+struct ImplicitCtor<SrcU, R, DstU, T, true> {
+    static void run(R x, const Affine &m) {
+        auto p = au::make_quantity_point<SrcU>(x);
+        T a{}, b{};
+        VF_PHASE(vf::PH_OPERATION) {
+            au::QuantityPoint<DstU, T> y = p;
+            au::QuantityPoint<DstU, T> z = au::make_quantity_point<DstU>(T{});
+            z = p;
+            a = y.in(DstU{}); b = z.in(DstU{});
+        }
+        g_st.evals += 2;
+        Judge<T>::run("implicit constructor", x, a, m);
+        Judge<T>::run("implicit assignment", x, b, m);
     }
 };
 
@@ -181,6 +204,7 @@ __attribute__((noinline)) void run_convert(long id, const char *desc, long long 
         Judge<T>::run("coerce_as<T>", x, b, m);
         Judge<T>::run("as<T>", x, c, m);
         ImplicitForms<SrcU, R, DstU, Implicit>::run(x, m);
+        ImplicitCtor<SrcU, R, DstU, T>::run(x, m);
     });
     dump("pconv", id, desc);
 }
@@ -355,12 +379,16 @@ __attribute__((noinline)) void run_shift(long id, const char *desc, long long kn
             const ld off = (ld)offn / (ld)offd;          // position of QU's zero on the PU scale
             const ld Q = Y + off;                        // position of the second point on the PU scale
             const ld bigp = std::max(big, std::max(std::fabs(off), std::fabs(Q)));
-            if (bigp * (ld)kd * (ld)(kn > kd ? kn : kd) * (ld)offd > lim || (uns && (Q < 0 || off < 0 || X < Q))) { g_st.skipped++; return; }
+            if (bigp * (ld)kd * (ld)(kn > kd ? kn : kd) * (ld)offd > lim || (uns && (Q < 0 || off < 0))) { g_st.skipped++; return; }
             auto p2 = au::make_quantity_point<QU>(y);
             const ld tolp = (std::is_integral<C>::value ? 0 : 16 * ulp_of<C>(bigp)) + 8 * ulp_of<ld>(bigp);
             bool lt = false, gt = false, eq = false; ld df = 0;
-            VF_PHASE(vf::PH_OPERATION) { lt = p < p2; gt = p > p2; eq = p == p2; df = (p - p2).in(au::QuantityMaker<au::CommonUnitT<PU, QU>>{}) * 1.0L; }
-            g_st.evals += 4;
+            bool le = false, ge = false, ne = false;
+            VF_PHASE(vf::PH_OPERATION) { lt = p < p2; gt = p > p2; eq = p == p2; le = p <= p2; ge = p >= p2; ne = p != p2; }
+            // (the displacement is a quantity of the common rep: with an unsigned one only a non-negative difference is in the domain)
+            if (!uns || X >= Q) { VF_PHASE(vf::PH_OPERATION) { df = (p - p2).in(au::QuantityMaker<au::CommonUnitT<PU, QU>>{}) * 1.0L; } }
+            g_st.evals += 7;
+            if (ne == eq || le != (lt || eq) || ge != (gt || eq) || (lt && gt)) mismatch("point compare inconsistent (mixed reps)", x, y, (int)lt, (int)gt);
             if (std::fabs(X - Q) > 4 * tolp + (std::is_integral<C>::value ? 0 : 1e-12L * bigp)) {
                 g_st.judged += 3;
                 if (lt != (X < Q) || gt != (X > Q) || eq) mismatch("point compare (mixed reps)", x, y, (int)lt, (int)(X < Q));
